@@ -930,6 +930,59 @@ def gen_stateless(rng, lines, cover, n):
             lines.append("rot ccw %s %s" % (ax, f2h(ang)))
 
 
+SIGN_MAGS = [1e-320, 5e-324, 1e-310, 1e-300, 1e-200, 1e-170, 1e-162, 1e-161, 1e-100, 1e-10, 1.0, 1e100, 1e154, 1e155, 1e200, 1e300,
+             1.7976931348623157e308]
+SIGN_TOLS = [0.0, 1e-300, 1e-12, 1e-6, 1.0, 1e300, float("inf")]
+
+
+def gen_sign_strata(rng, lines, cover, n):
+    """close_to / PartialEq over the whole exponent range: opposite-sign pairs (a, -a(1 +- k ulp)) whose product
+    underflows / overflows, same-sign near-equal pairs (must be close), signed zeros; placed at a random position
+    among equal entries, as vectors (vclose / veq) and as matrices (load + close / eq)."""
+    for _ in range(n):
+        mag = rng.choice(SIGN_MAGS) * rng.choice([1.0, 1.0, rng.uniform(0.5, 2.0)])
+        if mag == 0.0 or mag == float("inf"):
+            mag = rng.choice(SIGN_MAGS)
+        a = mag * rng.choice([1, -1])
+        k = rng.choice([0, 0, 1, -1, 2, 5, -5])
+        kind = rng.randint(0, 5)
+        if kind <= 2:       # opposite sign, (nearly) equal magnitude
+            b = -a * (1 + k * EPS)
+            cls = "opposite"
+        elif kind == 3:     # same sign, nearly equal: must be close for every tol >= k ulp
+            b = a * (1 + k * EPS)
+            cls = "same"
+        elif kind == 4:     # signed zeros against each other / against a tiny value
+            a = rng.choice([0.0, -0.0])
+            b = rng.choice([0.0, -0.0, mag, -mag])
+            cls = "zero"
+        else:               # opposite sign, different magnitudes (one factor tiny, one huge)
+            b = -rng.choice(SIGN_MAGS) * (1 if a > 0 else -1)
+            cls = "opposite-mixed"
+        ln = rng.randint(1, 9)
+        base = [rng.choice([1.0, -2.5, 0.0, mag, -mag, 3e-200, 7e150]) for _ in range(ln)]
+        pos = rng.randint(0, ln - 1)
+        xs, ys = list(base), list(base)
+        xs[pos], ys[pos] = a, b
+        if rng.chance(0.5):
+            xs, ys = ys, xs
+        tol = rng.choice(SIGN_TOLS)
+        cover["sign:" + cls] = cover.get("sign:" + cls, 0) + 1
+        form = rng.randint(0, 3)
+        if form == 0:
+            lines.append("vclose %s %s %s" % (vec(xs), vec(ys), f2h(tol)))
+        elif form == 1:
+            lines.append("veq %s %s" % (vec(xs), vec(ys)))
+        else:
+            divs = [d for d in range(1, ln + 1) if ln % d == 0]
+            r = rng.choice(divs)
+            lines.append(mat_line("load", r, ln // r, xs))
+            if form == 2:
+                lines.append(mat_line("close", r, ln // r, ys, f2h(tol)))
+            else:
+                lines.append(mat_line("eq", r, ln // r, ys))
+
+
 def corpus():
     one = f2h(1.0)
     h = lambda xs: vec(xs)
@@ -954,6 +1007,12 @@ def corpus():
         "load 4 2 " + h([1, 2, 0, 3, 0, 0, 0, 5]), "is_up",
         # F39: linspace with a single point is the start point
         "linspace %s %s 1" % (f2h(0.0), f2h(1.0)), "linspace %s %s 1" % (f2h(2.0), f2h(2.0)), "linspace %s %s 2" % (f2h(0.0), f2h(1.0)),
+        # seeded change C15d: sign test by `a * b < 0` misses pairs whose product underflows to -0.0
+        "vclose %s %s %s" % (h([1e-300]), h([-1e-300]), f2h(0.0)),
+        "vclose %s %s %s" % (h([1.0, 1e-170, 2.0]), h([1.0, -1e-170, 2.0]), f2h(1e-6)),
+        "load 1 2 " + h([-1e-320, 1.0]), "close 1 2 %s %s" % (h([1e-320, 1.0]), f2h(1.0)),
+        "vclose %s %s %s" % (h([1e200]), h([-1e200]), f2h(float("inf"))),
+        "vclose %s %s %s" % (h([1e-300]), h([1e-300]), f2h(0.0)),
     ]
 
 
@@ -966,6 +1025,7 @@ def gen(rng, tier):
     for ln in range(0, 4200 if tier == "thorough" else 300):
         lines.append("is_square_u %d" % ln)
     gen_stateless(rng, lines, cover, 2500 if tier == "quick" else 60000)
+    gen_sign_strata(rng, lines, cover, 1500 if tier == "quick" else 30000)
     cover["programs"] = nprog
     cover["max_observed_error_in_eps"] = OBS   # filled by the oracle (same dict object): calibration of VDM_C, LIN_C, ROT_C
     return lines, cover
